@@ -28,7 +28,9 @@ pub fn duplicate_checks(ctx: &Ctx, tier: Tier) -> (u64, u64) {
                 }
             }
         } else {
-            for op in first.iter().step_by(7) {
+            // quick: every 9th first operation; seeds kept for one special shape only from their initial state
+            let step = if crate::engine::histx::SHALLOW_SEEDS.contains(&seed_name) { first.len().max(1) } else { 9 };
+            for op in first.iter().step_by(step) {
                 let mut w = seed(seed_name);
                 if matches!(apply(&mut w, op), Outcome::Ok(_)) {
                     hists.push(vec![op.clone()]);
